@@ -56,6 +56,15 @@ pub enum Tk {
     E(Box<Tk>),
 }
 
+/// Token type with a lifetime (C19).
+#[derive(Clone, Debug, PartialEq)]
+pub enum TokL<'a> {
+    Word(&'a str),
+    Num(i64),
+    Plus,
+    Semi,
+}
+
 /// Trait with an associated type for generic grammars (C19).
 pub trait Env {
     type Out: Clone + std::fmt::Debug;
